@@ -35,3 +35,21 @@ def gen_bins(rng, it, c):
     n = shape[0] * shape[1]
     data = np.array([rng.choice(cand) for _ in range(n)], dtype=rng.choice(["float32", "float64"])).reshape(shape)
     return {"data": data, "bins": np.array(bins, dtype="float64"), "new_values": np.array(new_values, dtype="float64")}
+
+
+def gen_conv(rng, it, c):
+    kshape = (rng.choice([1, 3, 5]), rng.choice([1, 3, 5]))
+    shape = (rng.randint(0, 7), rng.randint(0, 7))
+    pool = [0.0, 1.0, 2.0, -1.0, 0.5, float("nan"), 3.0, float("inf")]
+    return {"data": _arr(rng, shape, pool), "kernel": _arr(rng, kshape, [0.0, 1.0, 2.0, -1.0, 0.5])}
+
+
+def gen_apply(rng, it, c):
+    """random 0/1 kernels of odd, possibly non-square shape (asymmetric patterns) and a jitted nan-reducer"""
+    from xrspatial import focal
+    kshape = (rng.choice([1, 3, 5]), rng.choice([1, 3, 5]))
+    shape = (rng.randint(0, 6), rng.randint(0, 6))
+    pool = [0.0, 1.0, 2.0, -1.0, 0.5, float("nan"), 3.0, 7.0]
+    kernel = np.array([rng.choice([0.0, 1.0]) for _ in range(kshape[0] * kshape[1])]).reshape(kshape)
+    func = rng.choice([focal._calc_mean, focal._calc_sum, focal._calc_min, focal._calc_max, focal._calc_range, focal._calc_std])
+    return {"data": _arr(rng, shape, pool, dtype="float32"), "kernel": kernel, "func": func}
